@@ -50,7 +50,88 @@ class Summ:
                     m.add(c[1].get('dloc'))
         return m
 
+    def _substituted(self, loc):
+        """will canon() replace uses of this local by its initialiser?"""
+        if not self.subst:
+            return False
+        saved = self.env.assigned
+        self.env.assigned = self.mutated
+        try:
+            return self.env.definition({'dloc': loc}) is not None
+        finally:
+            self.env.assigned = saved
+
+    def _ensure_alpha(self):
+        """alpha-rename parameters positionally and the locals / bindings / loop variables that survive in the summary (i.e. are not substituted by
+        their initialiser) by order of declaration, so that two siblings (or duals) agree whatever their locals are called; roles given by the
+        caller are kept.  alpha_scope(node) restarts the numbering for the locals declared inside one fragment (two arms of one function)."""
+        if getattr(self, '_alpha_env', None) is self.env:
+            return
+        self._alpha_env = self.env
+        ren = self.env.rename
+        self._fixed = set(ren)
+        for i, p in enumerate(self.f.get('params') or ()):
+            if p.get('loc') and p['loc'] not in ren:
+                ren[p['loc']] = '$p%d' % i
+        self._number(self.f.nodes(), '$v')
+
+    @staticmethod
+    def _lc(loc):
+        try:
+            a = loc.rsplit(':', 2)
+            return (a[0], int(a[1]), int(a[2]))
+        except (ValueError, IndexError, AttributeError):
+            return ('', 0, 0)
+
+    def _number(self, nodes, prefix):
+        """declaration order; a structured binding is named after its declaration and its position in it (whether or not it is ever used)."""
+        ren = self.env.rename
+        nodes = list(nodes)
+        k = 0
+        decomp = []         # (loc tuple, number, binding names)
+        for n in nodes:
+            if n.get('k') != 'VarDecl':
+                continue
+            d = n.get('loc')
+            if not d or d in self._fixed:
+                continue
+            if n.get('bindings'):
+                decomp.append((self._lc(d), k, list(n['bindings'])))
+                ren[d] = '%s%d' % (prefix, k)
+                k += 1
+                continue
+            if self._substituted(d):
+                continue
+            if prefix == '$v' and d in ren:
+                continue
+            ren[d] = '%s%d' % (prefix, k)
+            k += 1
+        decomp.sort()
+        for n in nodes:
+            if n.get('k') == 'DeclRefExpr' and n.get('refk') == 'Binding':
+                d = n.get('dloc')
+                if not d or d in self._fixed:
+                    continue
+                lc = self._lc(d)
+                best = None
+                for dl, num, names in decomp:
+                    if dl[0] == lc[0] and dl[1:] <= lc[1:] and n.get('ref') in names:
+                        best = (num, names.index(n.get('ref')))
+                if best is not None:
+                    ren[d] = '%s%d.%d' % (prefix, best[0], best[1])
+
+    def alpha_scope(self, node):
+        """number the locals declared inside `node` from zero (prefix $s): fragments of one function become comparable."""
+        self._ensure_alpha()
+        self._number(walk(node), '$s')
+
+    def name_of(self, decl):
+        """alpha name of a declared local (VarDecl node)."""
+        self._ensure_alpha()
+        return self.env.rename.get(decl.get('loc'), decl.get('name'))
+
     def term(self, n):
+        self._ensure_alpha()
         env = self.env
         saved = env.assigned
         env.assigned = self.mutated
@@ -86,12 +167,12 @@ class Summ:
                     continue
                 if d['loc'] in self.mutated or not isinstance(d.get('init'), dict) or d.get('bindings') or not self.subst:
                     init = self.term(d['init']) if isinstance(d.get('init'), dict) else None
-                    out.append(('decl', self.rw(d['name']), init) if not d.get('bindings') else ('bind', tuple(d['bindings']), init))
+                    out.append(('decl', self.rw(self.name_of(d)), init) if not d.get('bindings') else ('bind', len(d['bindings']), init))
                 # pure, never-mutated locals are substituted into their uses
             return tuple(out) if out else None
         if k in ('CXXForRangeStmt',):
             sl = s['slots']
-            return ('foreach', sl['var'].get('name'), self.term(sl['range']), self.paths(sl['body']))
+            return ('foreach', self.name_of(sl['var']) if sl['var'].get('name') else len(sl['var'].get('bindings') or ()), self.term(sl['range']), self.paths(sl['body']))
         if k in ('ForStmt', 'WhileStmt', 'DoStmt'):
             sl = s['slots']
             return (k, self.term(sl.get('init')) if sl.get('init') and sl['init'].get('k') != 'DeclStmt' else (self.stmt(sl['init']) if sl.get('init') else None),
